@@ -114,6 +114,8 @@ type SymJob struct {
 	pre   func()
 	// unwindIsFinding: unwinding failures are handed to the caller (confirmed natively) instead of being inconclusive
 	unwindIsFinding bool
+	// noReplay: violations are confirmed by the caller (no harness replay possible)
+	noReplay bool
 }
 
 // ReplaySpec says where a harness lives so that a model can be re-run natively.
@@ -175,6 +177,9 @@ func (c *Ctx) RunSym(job SymJob) *gosym.Report {
 	}
 	for _, s := range rep.Samples {
 		c.AddSample(map[string]interface{}{"job": job.Name, "decisions": s.Decisions, "path_condition": s.PC, "model": s.Model, "covers": s.Covers})
+	}
+	if job.noReplay {
+		return rep
 	}
 	// classify violations: one replay per distinct key
 	seen := map[string]bool{}
